@@ -104,7 +104,8 @@ class SNMPClientProtocol(asyncio.DatagramProtocol):
 
         if LOG.isEnabledFor(logging.DEBUG):
             hexdump = visible_octets(self.packet)
-            ip, port = self.transport.get_extra_info("peername", ("", ""))
+            # IPv6 peer names are 4-tuples (host, port, flowinfo, scope_id)
+            ip, port = self.transport.get_extra_info("peername", ("", ""))[:2]
             LOG.debug("Sending packet to %s:%s\n%s", ip, port, hexdump)
 
         self.transport.sendto(self.packet)
